@@ -5,6 +5,9 @@ import AlgoVerif.Props.C24Model
 namespace AlgoVerif.Driver.GenFees
 open AlgoVerif.Drv Gen.Fees Gen.Basics
 
+/-- minimum balance of a fee sink holding `na` assets (no apps/boxes): MinBalance·(1+na), saturating at 2^64−1 -/
+def sinkMin (mb na : Nat) : Nat := min (mb + mb * na) 18446744073709551615
+
 def handle (line : String) : String :=
   match fields line with
   | ["cgf", paid, usage, minFee] => if CheckGroupFees (nat! paid) (nat! usage) (nat! minFee) then "err" else "ok"
@@ -13,8 +16,13 @@ def handle (line : String) : String :=
   | ["payout", pct, fees, bonus, sink, mb] =>
       match Model.C24.proposerPayout (nat! pct) (nat! fees) (nat! bonus) (nat! sink) (nat! mb) with
       | none => "err" | some p => toString p
+  | ["payout", pct, fees, bonus, sink, mb, na] =>   -- sink holding `na` assets: its minimum balance is mb·(1+na)
+      match Model.C24.proposerPayout (nat! pct) (nat! fees) (nat! bonus) (nat! sink) (sinkMin (nat! mb) (nat! na)) with
+      | none => "err" | some p => toString p
   | ["vpay", c, pct, fees, bonus, sink, mb] =>
       if Model.C24.payoutAccepted (nat! c) (nat! pct) (nat! fees) (nat! bonus) (nat! sink) (nat! mb) then "ok" else "err"
+  | ["vpay", c, pct, fees, bonus, sink, mb, na] =>
+      if Model.C24.payoutAccepted (nat! c) (nat! pct) (nat! fees) (nat! bonus) (nat! sink) (sinkMin (nat! mb) (nat! na)) then "ok" else "err"
   | ["bonus", cur, prev, b1, a1, d1, b2, a2, d2] =>
       match computeBonus (nat! cur) (nat! prev) ⟨nat! b1, nat! a1, nat! d1⟩ ⟨nat! b2, nat! a2, nat! d2⟩ with
       | none => "PANIC" | some x => toString x
